@@ -62,7 +62,13 @@ def gen_run(rng, k):
 def gen_fixrot(rng, k):
     n = rng.randint(3, 7)
     pos = np.array([[rng.uniform(-3, 3) for _ in range(3)] for _ in range(n)])
-    if k % 4 == 0:   # axis-aligned block (the only kind the test-suite uses)
+    if k % 5 == 1:   # nearly linear (CO2 bent by a few degrees, acetylene with the H atoms slightly off the axis): non-collinear all the same
+        axis = np.array([rng.uniform(-1, 1) for _ in range(3)])
+        axis /= np.linalg.norm(axis)
+        perp = np.cross(axis, [0.3, -0.5, 0.8])
+        perp /= np.linalg.norm(perp)
+        pos = np.array([axis * (1.2 * i - 0.6 * n) + perp * rng.choice([0.03, -0.03, 0.05, 0.0]) * (1 if i % 2 else -1) for i in range(n)])
+    elif k % 4 == 0:   # axis-aligned block (the only kind the test-suite uses)
         pos = np.array([[float(i % 2) * 2, float((i // 2) % 2) * 2, float(i // 4) * 2] for i in range(n)])
     return {"mode": "fixrot", "symbols": [rng.choice(SPECIES) for _ in range(n)], "positions": np.round(pos * 64).__truediv__(64).tolist(),
             "masses": [rng.choice([1.008, 2.014, 12.0, 39.948, 196.97]) for _ in range(n)] if rng.random() < 0.5 else None,
